@@ -97,6 +97,13 @@ class World(object):
     def host_rng(self):
         return self.hosts[self.cur].rng
 
+    def host_rng_aux(self):
+        h = self.hosts[self.cur]
+        if getattr(h, 'rng_aux_inc', None) != h.inc:
+            h.rng_aux = random.Random(self.seed * 7919 + h.idx * 104729 + h.inc * 31 + 17)
+            h.rng_aux_inc = h.inc
+        return h.rng_aux
+
     def probe(self, name, n=1):
         self.probes[name] = self.probes.get(name, 0) + n
 
